@@ -167,6 +167,11 @@ class ModelEnv(KillState):
         self.thread_kill_check(what)
         return True
 
+    def damage(self, p):
+        """the cache file is cut short behind the loader's back (a full disk, an interrupted copy of the cache directory)"""
+        c = self.files[p]
+        self.files[p] = Content(c.kind, c.payload, complete=False)
+
     # ---------------------------------------------------------------- os.path / os
     def join(self, *a):
         return posixpath.join(*a)
